@@ -28,7 +28,8 @@ CHECKS = {
               "nothing under data races); handler order is never asserted; where a comparison "
               "raises only agreement between mechanisms is required."
               " Later passes added: both static spellings (_x_changed/_x_fired) for one trait, add_trait of the same definition over a class trait."
-              " Sixth pass: one ready-made definition object bound to two names / declared by an unrelated class with its own static handler, no call for a trait a handler was never registered for, runs under the library's default (logging) exception handlers with unprintable values."),
+              " Sixth pass: one ready-made definition object bound to two names / declared by an unrelated class with its own static handler, no call for a trait a handler was never registered for, runs under the library's default (logging) exception handlers with unprintable values."
+              " Seventh pass: names that come into being through a wildcard definition, observe('*') handlers."),
         technique=TECH + "seeded assignment/registration/delivery histories with handler-fault "
                          "injection under a simulated scheduler, checked against a change model",
         design="4 (C02)"),
@@ -49,7 +50,8 @@ CHECKS = {
         note=("Trusts the hand-written models of Int/CInt/String/List item conversion; a "
               "container whose owner died stops validating by design and is not checked."
               " Later passes added: Undefined as an element, a falsy owner object, the oracle that an inner list stored by an earlier operation is the observed one."
-              " Sixth pass: containers inside Union(...) on an object without any recorder (first mutation adds the items companion), a Dict whose value class is named by a string, a bounded List whose implicit default is too short."),
+              " Sixth pass: containers inside Union(...) on an object without any recorder (first mutation adds the items companion), a Dict whose value class is named by a string, a bounded List whose implicit default is too short."
+              " Seventh pass: a nested declared default with a collected predecessor instance; the holder class is built per run."),
         technique=TECH + "seeded op/fault/restart histories on container traits against plain "
                          "Python container models with bounds",
         design="4 (C04)"),
@@ -64,7 +66,8 @@ CHECKS = {
               "class) table is measured for coverage in the evidence."),
         note=("Trusts CPython's list as the reference model and the harness validator; items "
               "are ints (total order); integer indices only, as the quantifier says."
-              " Later passes added: a non-idempotent validator (stored items are never validated again), indices and multipliers that are no integers."),
+              " Later passes added: a non-idempotent validator (stored items are never validated again), indices and multipliers that are no integers."
+              " Seventh pass: a sibling list (built alike, from the same notifiers= list, or a copy) that must not hear this list nor be heard by it; raw notifiers that unhook others in the middle of a notification."),
         technique=TECH + "seeded op/fault histories refined against a built-in list model, "
                          "ddmin-shrunk JSON replay",
         design="4 (C05/C06/C07)"),
@@ -80,7 +83,8 @@ CHECKS = {
         note=("Trusts CPython's dict as the model; lookup-style operations are generated with "
               "already-valid keys only, so the two readings of 'same operations on validated "
               "keys' coincide."
-              " Later passes added: mappings that are no dicts (UserDict, MappingProxyType, ChainMap) as arguments."),
+              " Later passes added: mappings that are no dicts (UserDict, MappingProxyType, ChainMap) as arguments."
+              " Seventh pass: a sibling dict (built alike or a copy); raw notifiers that unhook others in the middle of a notification."),
         technique=TECH + "seeded op/fault histories refined against a built-in dict model, "
                          "ddmin-shrunk JSON replay",
         design="4 (C05/C06/C07)"),
@@ -96,7 +100,8 @@ CHECKS = {
         note=("Trusts CPython's set as the model; pop() is arbitrary so the model follows the "
               "system's choice; coercible spellings are fresh numbers (never collide with a "
               "member)."
-              " Sixth pass: operand classes for the in-place operators (frozenset, TraitSet, set subclass)."),
+              " Sixth pass: operand classes for the in-place operators (frozenset, TraitSet, set subclass)."
+              " Seventh pass: a sibling set (built alike or a copy); raw notifiers that unhook others in the middle of a notification."),
         technique=TECH + "seeded op/fault/restart histories refined against a built-in set "
                          "model, ddmin-shrunk JSON replay",
         design="4 (C05/C06/C07)"),
@@ -122,7 +127,8 @@ CHECKS = {
               "reported via stored witnesses; conflicting re-entrant mutation is not generated; "
               "containers never hold None."
               " Later passes added: a replaced container mutated through an alias; known findings K3 and K4 (constant default objects of never-read traits) are excluded by guards with stored witnesses."
-              " Sixth pass: instance traits carrying metadata (added before/after insertion, or with another node's definition object), a Dict-of-Lists link (shelf.items.items)."),
+              " Sixth pass: instance traits carrying metadata (added before/after insertion, or with another node's definition object), a Dict-of-Lists link (shelf.items.items)."
+              " Seventh pass: '+kid' as a filtered link step (one step yields several objects)."),
         technique=TECH + "seeded graph-mutation histories with probes after every step against a "
                          "from-scratch reachability model; simulated scheduler for ui dispatch",
         design="4 (C08)"),
@@ -147,7 +153,8 @@ CHECKS = {
               "histories (K1) are excluded by the model-side guard; re-entrant (un)registration "
               "is restricted to registrations whose walk the in-flight change does not re-hook."
               " Later passes added: del and redefinition (add_trait on an existing name) of observed traits, and a reincarnated owner of a registered bound-method handler (address reuse; a violation found there replays only when the allocator co-operates)."
-              " Sixth pass: the UI handler installed after the first registrations; metadata instance traits and the Dict-of-Lists link of the graph world."),
+              " Sixth pass: the UI handler installed after the first registrations; metadata instance traits and the Dict-of-Lists link of the graph world."
+              " Seventh pass: removals that fail after a whole multi-observable object has been unhooked ('+kid.+tag' after a quiet swap)."),
         technique=TECH + "seeded registration/graph/fault histories with notifier-population "
                          "snapshots, placement faults on the registration walk, gc/drop events "
                          "and a simulated scheduler",
@@ -193,7 +200,8 @@ CHECKS = {
               "boolean; 1- and 2-argument legacy handlers are rejected by traits itself for "
               "intermediate changes and not used."
               " Later passes added: del of link traits, replaced containers mutated through an alias."
-              " Sixth pass: '+tag' (metadata) as the final step of the name in both systems, deferred=True registrations; F11 fixed in /repo."),
+              " Sixth pass: '+tag' (metadata) as the final step of the name in both systems, deferred=True registrations; F11 fixed in /repo."
+              " Seventh pass: registrations on a graph that exists already (F15 fixed in /repo), a second handler under the same name whose owner is collected."),
         technique=TECH + "seeded mutation histories on trees with probes, legacy listener vs "
                          "observe vs from-scratch reachability model",
         design="4 (C16)"),
@@ -221,7 +229,8 @@ CHECKS = {
               "original); copy='ref' links are supposed to share; copy.copy of whole objects is "
               "shallow by definition and not part of the statement."
               " Later passes added: a settable Property stored under another dictionary name, a PrototypedFrom attribute declared before its prototype (known finding K5 excluded by a guard, stored witness)."
-              " Sixth pass: copies must report traits_inited()."),
+              " Sixth pass: copies must report traits_inited()."
+              " Seventh pass: post_init observers on copies, every nested object of a deep copy checked for shared containers, an untyped list attribute."),
         technique=TECH + "seeded edit/restart/fork/clone histories against a plain-Python model "
                          "with a liveness battery after every restore; crash triage in child "
                          "interpreters",
@@ -252,7 +261,8 @@ CHECKS = {
               "wildcard traits for names that were merely looked up is not counted as a change "
               "of definitions."
               " Later passes added: a _<x>_changed_for_<trait> listener and handlers registered on a name that exists only through the class's wildcard definition."
-              " Sixth pass: Any defaults that are instances of list/dict subclasses, a mapped trait with a default method and a listener on its shadow value."),
+              " Sixth pass: Any defaults that are instances of list/dict subclasses, a mapped trait with a default method and a listener on its shadow value."
+              " Seventh pass: a deep clone joins the population as one more sibling."),
         technique=TECH + "seeded multi-instance histories (creation order, gc, drop, restart) "
                          "with default factories and handlers as callback points, "
                          "non-interference checked against per-instance models",
@@ -277,7 +287,8 @@ CHECKS = {
         note=("The delegate link always holds an object; swapping the delegate itself is not "
               "required to notify."
               " Later passes added: delegates that all compare equal (value objects)."
-              " Sixth pass: delegate links whose defaults come from methods returning existing objects (never assigned, never read by the harness), assignment of the very object an attribute reads as."),
+              " Sixth pass: delegate links whose defaults come from methods returning existing objects (never assigned, never read by the harness), assignment of the very object an attribute reads as."
+              " Seventh pass: del of a prototyped attribute that holds no local value."),
         technique=TECH + "seeded two-sided assignment/swap/delete histories with gc, drop and "
                          "restart events against a pointer-following model",
         design="4 (C11)"),
@@ -298,7 +309,8 @@ CHECKS = {
               "rule; pickle restart is left to C14 (what survives a pickle would blur this "
               "oracle)."
               " Later passes added: container instance traits and their <name>_items companions."
-              " Sixth pass: Union(None, List) class traits whose items companion an in-place mutation adds to one instance only; the value side effect of remove_trait on a companion name is re-read, not predicted."),
+              " Sixth pass: Union(None, List) class traits whose items companion an in-place mutation adds to one instance only; the value side effect of remove_trait on a companion name is re-read, not predicted."
+              " Seventh pass: a handler registered on a name as its first use and removed again; a trait_added listener that declares another name (F16 fixed in /repo)."),
         technique=TECH + "seeded class hierarchies and access histories over several instances "
                          "(resolution order as schedule) against a rule model",
         design="4 (C13)"),
@@ -324,7 +336,8 @@ CHECKS = {
               "redundant paths between List traits are excluded by a guard (known finding K2, "
               "stored witness)."
               " Later passes added: a List whose default comes from a method, handlers closing over their own object, a liveness check after every drop."
-              " Sixth pass: a List trait whose name ends in '_items'."),
+              " Sixth pass: a List trait whose name ends in '_items'."
+              " Seventh pass: sync_trait refused by the partner's validator."),
         technique=TECH + "seeded two-sided assignment/mutation/link histories with partner "
                          "gc/drop events (also injected inside handlers) against a link-graph "
                          "propagation model",
@@ -356,7 +369,8 @@ CHECKS = {
               "points; raw TraitList notifiers are documented as not expected to raise and are "
               "not change handlers; default materialisation is not an effect."
               " Later passes added: histories under the library's default exception handlers, exceptions with non-string arguments."
-              " Sixth pass: del with a failing default method, sync_trait / unsync as ops, an extended legacy name through a lazily defaulted link, a second adaptation offer; F12-F14 fixed in /repo, K6 recorded (second hand-over of a mutual sync_trait is not injected)."),
+              " Sixth pass: del with a failing default method, sync_trait / unsync as ops, an extended legacy name through a lazily defaulted link, a second adaptation offer; F12-F14 fixed in /repo, K6 recorded (second hand-over of a mutual sync_trait is not injected)."
+              " Seventh pass: the getter of an observed cached property failing at notification time."),
         technique=TECH + "twin worlds with exhaustive enumeration of (op, callback site, "
                          "ordinal, exception class) injections per sampled history, "
                          "snapshot/suffix comparison against fault-free and skip twins",
@@ -387,7 +401,8 @@ CHECKS = {
               "inconsistent state tuples (type confusion by construction) are outside the "
               "statement's 'calls through the documented API'."
               " Later passes added: attribute fuzz on trait definition objects, ill-formed arguments to the multi-argument CTrait setters followed by use, original-value traits with dynamic defaults."
-              " Sixth pass: exact float/int/str values offered to numeric validators alone and inside compound traits (reference counts), failing default methods under three warning modes with the exception chain walked."),
+              " Sixth pass: exact float/int/str values offered to numeric validators alone and inside compound traits (reference counts), failing default methods under three warning modes with the exception chain walked."
+              " Seventh pass: instance-trait fuzz followed by use, hooks/accessors with finalizers, temporary delegates, attribute names with a failing hash, unresolvable pre-6.0 states (G8-G12 fixed in /repo)."),
         technique=TECH + "sanitised re-execution of all simulated workloads plus adversarial "
                          "re-entrancy/gc-storm/corrupted-state worlds; refcount and allocation "
                          "plateau oracles against a holder-count model",
